@@ -63,6 +63,11 @@ def shape(e, depth=0):
     return t
 
 
+def resolve_rv(f, rv, block):
+    from flow import resolve_rvalue
+    return resolve_rvalue(f, rv, 0, frozenset(), block)
+
+
 def return_expr(f):
     """Expression assigned to the return place (phi over all assignments)."""
     return resolve_place(f, {"l": 0, "p": []})
@@ -226,10 +231,22 @@ def d2_shape(chk, F):
         chk.expect(ok, "C09.D2-affine", "Converter::convert_f64 forwarding", f"{g.file}:{g.line}",
                    f"Converter::convert_f64 does not forward (value, from, to) in order: {[[shape(resolve(g, a)) for a in t['args']] for _, t in calls]}",
                    sample="forwards (value, from, to) = ($2, $3, $4)")
-        # the identity fast path returns the value itself
+        # the identity fast path returns the value itself, and only when from and to are the same unit
         rets = shape(return_expr(g))
         chk.expect("$2" in rets, "C09.D2-affine", "Converter::convert_f64 fast path", f"{g.file}:{g.line}",
                    f"fast path of Converter::convert_f64 does not return the input value ({rets})", sample=f"returns {rets}")
+        from cfgq import call_result_edges
+        idblocks = [i for i, j, s_ in g.iter_stmts() if s_["k"] == "assign" and s_["place"]["l"] == 0 and not s_["place"]["p"]
+                    and shape(resolve_rv(g, s_["rv"], i)) == "$2"]
+        eqs = [(b, t) for b, t in g.calls() if (callee_key(t) or "").endswith("ptr::eq")
+               and sorted(shape(resolve(g, a)) for a in t["args"]) == ["$3", "$4"]]
+        okfast = bool(idblocks) and bool(eqs)
+        for ib in idblocks:
+            okfast = okfast and any(g.edge_dominates(e, ib) for b, t in eqs for e in call_result_edges(g, b)[0])
+        chk.expect(okfast or not idblocks, "C09.D2-affine", "Converter::convert_f64 fast path guard", f"{g.file}:{g.line}",
+                   "Converter::convert_f64 returns its input unconverted on a path that is not guarded by `from` and `to` being the same unit "
+                   "(offset units such as °C/°F would keep their number)",
+                   sample="the unconverted return is dominated by ptr::eq(from, to)")
     cv = F.find("Converter::convert_value")
     if len(cv) != 1:
         chk.fail("anchor-missing", "Converter::convert_value", "", "anchor-missing: Converter::convert_value not found")
